@@ -176,6 +176,11 @@ def judge(chk, m, r, st):
         if r['avail'] < r['n'] and r['first'] >= r['avail']:
             key = 'lap_reaches_past_primed_samples'
             why = f'only {r["avail"]} finished samples were primed at the new position, the splice ran over n={r["n"]} samples into the not yet overlap-added half'
+        elif m['kind'] == 'X' and any(o[:2] in VARIANTS for o in m['hist2']):
+            # named predicate: the second handle's current block had already been exposed by a lapped seek in its own history
+            # (vorbis_synthesis_lapout is applied to the same decoded block a second time by ov_crosslap)
+            key = 'XL:second_handle_block_exposed_twice'
+            why = f'vf2 was positioned by a lapped seek and still inside the block that seek primed; primed {r["avail"]} n={r["n"]}'
         else:
             key = f'{v}:{oc}:crossfade_formula'
             why = f'primed {r["avail"]} n={r["n"]}'
